@@ -21,6 +21,10 @@ alias primitive_quartet_is_integral := eriQuartet_eq_integral
 alias block_symm_ab := eriBlock_swap_ab
 alias block_symm_cd := eriBlock_swap_cd
 alias block_symm_electrons := eriBlock_swap_electrons
+/-- the repair of the accuracy defect (fix commit c23ffd8) computes `(cd|ab)` and swaps the axes back whenever that orientation
+amplifies rounding errors less: in exact arithmetic this is the identity, by the symmetry of the model's block under the exchange
+of the two electrons -/
+alias orientation_swap_is_exact := eriBlock_swap_electrons
 alias block_self_nonneg := eriBlock_self_nonneg
 alias block_schwarz := eriBlock_schwarz
 end GB.C04
